@@ -25,7 +25,9 @@ THEOREMS = ['C16.users_roundtrip', 'C16.users_load_total', 'C16.lines_roundtrip'
             'C16.channels_roundtrip', 'C16.loadedChan_same', 'C16.channels_default_anticap_returns', 'C16.channels_expiry_rounded',
             'C16.networks_roundtrip', 'C16.networks_empty_record_dropped',
             'C16.ignores_roundtrip', 'C16.ignores_hash_hostmask_lost',
-            'C16.users_reload_no_new_capability', 'C16.users_loaded_fields_safe', 'C16.users_linebreak_injects']
+            'C16.users_reload_no_new_capability', 'C16.users_loaded_fields_safe', 'C16.users_linebreak_injects',
+            'C16.load_ids', 'C16.load_err_stuck', 'C16.load_stuck', 'C16.load_fresh',
+            'C16.capsOk_perm', 'C16.users_roundtrip_any_cap_order', 'C16.inverse_pair_some_order_loses']
 TRUSTED = ['Lean 4.33.0 kernel; axioms ⊆ {propext, Classical.choice, Quot.sound}',
            'harness/extractors/preserve.py (writer keywords, reader vocabularies, rfc1459 table → Gen/Preserve.lean)',
            'harness/c16.py generators, snapshot/canonicalisation code, hex line protocol',
